@@ -7,7 +7,7 @@ from . import javagen
 
 PROP = "C10"
 FAMILY = "bs"
-PROPS = ["C10"]
+PROPS = ["C10", "C10Shape"]
 GEN_GROUPS = ["Bs"]
 KINDS = ["lazyElement", "longMethod", "dataClass", "largeClass", "complexCondition", "repeatedSwitches", "longParameterList"]
 SIZED = ["largeClass", "repeatedSwitches", "longParameterList", "longMethod", "dataClass"]
